@@ -44,7 +44,18 @@ def roundtrip(st, lang, batch, scratch):
             roundtrip(st, lang, [c], scratch)
         return
     conll = TP.render(nbest, 'conll')
-    crecs = D.decode_conll(conll)
+    try:
+        crecs = D.decode_conll(conll)
+        if len(crecs) != len(batch):
+            raise D.DecodeError(f'{len(crecs)} conll records for {len(batch)} trees')
+    except D.DecodeError as e:
+        if len(batch) == 1:
+            st.count('trees')
+            _bad(st, lang, batch[0][1], batch[0][2], 'conll_undecodable', f'conll output cannot be decoded: {e}', line=lines[0] if lines else '')
+            return
+        for c in batch:
+            roundtrip(st, lang, [c], scratch)
+        return
     for (fam, t, ws), tree, line, res, crec in zip(batch, trees, lines, got, crecs):
         st.count('trees')
         st.count('trees_' + fam)
